@@ -3,4 +3,4 @@ set -e
 cd /verif
 export GOFLAGS=-mod=mod GOPROXY=off GOSUMDB=off GOTOOLCHAIN=local
 go build -o .work/bin/instrument ./tools/instrument
-.work/bin/instrument -repo /repo -out /verif/.work/c16 -pkgs gossip/itemsfetcher,utils/workers,utils/wlru -maprange 'gossip/itemsfetcher/fetcher.go=request'
+.work/bin/instrument -repo /repo -out /verif/.work/c16 -pkgs gossip/itemsfetcher,utils/workers,utils/wlru -maprange 'gossip/itemsfetcher/fetcher.go=request,f.fetching'
